@@ -185,6 +185,26 @@ def run(ctx):
                                construct='%s.%s' % (c.name, n.name))
     ctx.assume('user subclasses that override node_standard_process_* are outside the rule; '
                'Python evaluates call arguments and keyword arguments left to right')
+    # ---- V2 (results unchanged): a callback's result is data, never a truth value
+    n_bo = 0
+    for q_, f_ in sorted(m.functions.items()):
+        if not (q_.startswith('LatexNodesVisitor.') or q_.endswith('.accept_node_visitor')):
+            continue
+        for b_ in iter_own(f_):
+            if isinstance(b_, (ast.BoolOp, ast.IfExp)):
+                parts = b_.values if isinstance(b_, ast.BoolOp) else [b_.test]
+                calls = [c_ for v_ in parts for c_ in ast.walk(v_) if isinstance(c_, ast.Call) and (
+                    call_name(c_) == 'accept_node_visitor' or call_name(c_).startswith('visit')
+                    or call_name(c_).startswith('descend_into') or call_name(c_).startswith('node_standard_process'))]
+                if calls:
+                    n_bo += 1
+                    ctx.refuted('V2', m, enclosing_stmt(b_) or b_, '%s uses the result of %s as a truth value (%s): a falsy '
+                                'result of the callback (None, 0, [], \'\') is replaced by another value before the '
+                                'parent receives it' % (q_, short(calls[0], 40), short(b_, 70)),
+                                construct='%s: result used as truth value' % q_)
+    ctx.holds('V2', m, None, 'no visit result is used as a truth value in the visitor', construct='truth-value scan',
+              trivial=True)
+
     return 'proof', EXPLANATION
 
 
